@@ -84,6 +84,7 @@ type Machine struct {
 	known      map[string]bool // agentF1: renderings of the asserted path-condition conjuncts
 	allFeasible bool           // agentF1: set by zz.Choice around decideN (fresh variable: all alternatives feasible)
 	c19s       *c19State
+	syncMaps   map[*value]*omap
 	xsolver    *Solver // second solver (thorough tier): cross-checks every unsat verdict
 }
 
